@@ -43,12 +43,27 @@ def main(argv):
         known.set_active(spec.get('active_known', []))
         failed = []
         ran = 0
+        outside = []
         for i, case in enumerate(spec['cases']):
+            # the validate arguments witness that the precondition is satisfiable: they must meet every pre: line
+            try:
+                import inspect
+                fn = _load_function(case['source'], case['function'])
+                bound = inspect.signature(fn).bind(*case.get('args', []), **case.get('kwargs', {}))
+                for line in (fn.__doc__ or '').splitlines():
+                    if line.strip().startswith('pre:'):
+                        env = dict(fn.__globals__)
+                        env.update(bound.arguments)
+                        if not eval(line.split('pre:', 1)[1].strip(), env):
+                            outside.append({'index': i, 'detail': 'validate arguments do not meet "%s"' % line.strip()})
+                            break
+            except Exception as exc:
+                outside.append({'index': i, 'detail': 'precondition of the validate arguments could not be evaluated: %s: %s' % (type(exc).__name__, exc)})
             ok, detail = run_cond(case)
             ran += 1
             if not ok:
                 failed.append({'index': i, 'detail': detail})
-        print(json.dumps({'ran': ran, 'failed': failed}))
+        print(json.dumps({'ran': ran, 'failed': failed, 'outside_pre': outside}))
         return 0
     with open(argv[0]) as f:
         case = json.load(f)
